@@ -385,3 +385,62 @@ Qed.
 (* a downgrade target ends the chain with the refusal class, without a further connection *)
 Theorem downgrade_ends_chain : forall rest, follow true (SRtsp :: rest) = ([true], 1).
 Proof. reflexivity. Qed.
+
+(* ------------------------------------------------------------------------------------------ *)
+(* the remote-SSRC latch                                                                        *)
+(* ------------------------------------------------------------------------------------------ *)
+
+(* genuine packets of the format: header SSRC g, they decode *)
+Definition genuine (g : N) (p : N * bool) : Prop := p = (g, true).
+(* anything that does not decode (altered or forged) is never delivered, latched or not *)
+Theorem latch_never_delivers_undecodable : forall secure l ssrc,
+  snd (filter_step secure l ssrc false) <> EDelivered.
+Proof.
+  intros secure [f v] ssrc. unfold filter_step. cbn [l_filled l_value].
+  destruct f; cbn [negb snd]; [|discriminate].
+  destruct (secure && negb (v =? ssrc))%bool; cbn; discriminate.
+Qed.
+
+(* REFUTATION (finding ssrc-latch-unauthenticated): one undecodable packet with another SSRC that
+   arrives first makes the receiver refuse every genuine packet that follows *)
+Theorem latch_poisoned_refuted :
+  filter_run true (mkLatch false 0) [(2, false); (1, true); (1, true); (1, true)]
+  = [EDecodeError; EWrongSSRC; EWrongSSRC; EWrongSSRC].
+Proof. reflexivity. Qed.
+
+(* and for good: once another SSRC is latched in secure mode, no genuine packet gets through *)
+Theorem latch_poison_permanent : forall v g pkts,
+  v <> g -> Forall (genuine g) pkts ->
+  filter_run true (mkLatch true v) pkts = map (fun _ => EWrongSSRC) pkts.
+Proof.
+  intros v g pkts Hne Hall. induction Hall as [|p t Hp _ IH]; [reflexivity|].
+  rewrite Hp. cbn [filter_run map]. unfold filter_step. cbn [l_filled l_value negb andb].
+  destruct (v =? g) eqn:E; [apply N.eqb_eq in E; congruence|]. cbn [negb]. rewrite IH. reflexivity.
+Qed.
+
+(* strongest true statement about the code as it is (_partial): if the FIRST packet that reaches the
+   format carries the sender's SSRC (genuine, or altered elsewhere), then every genuine packet is
+   delivered and everything undecodable is rejected, in any interleaving *)
+Definition latch_expected (secure : bool) (g : N) (p : N * bool) : revent :=
+  if snd p then EDelivered
+  else if secure && negb (g =? fst p) then EWrongSSRC else EDecodeError.
+
+Theorem latch_partial : forall secure g pkts,
+  Forall (fun p => snd p = true -> fst p = g) pkts ->   (* what decodes is genuine *)
+  filter_run secure (mkLatch true g) pkts = map (latch_expected secure g) pkts.
+Proof.
+  intros secure g pkts Hall. induction Hall as [|[s ok] t Hp _ IH]; [reflexivity|].
+  cbn [filter_run map]. unfold filter_step, latch_expected. cbn [l_filled l_value negb fst snd] in *.
+  destruct ok.
+  - rewrite (Hp eq_refl), N.eqb_refl. cbn [negb]. rewrite andb_false_r. rewrite IH. reflexivity.
+  - destruct (secure && negb (g =? s))%bool; rewrite IH; reflexivity.
+Qed.
+
+Theorem latch_first_genuine : forall secure g ok0 pkts,
+  Forall (fun p => snd p = true -> fst p = g) pkts ->
+  filter_run secure (mkLatch false 0) ((g, ok0) :: pkts)
+  = (if ok0 then EDelivered else EDecodeError) :: map (latch_expected secure g) pkts.
+Proof.
+  intros secure g ok0 pkts Hall. cbn [filter_run]. unfold filter_step. cbn [l_filled negb].
+  rewrite (latch_partial secure g pkts Hall). reflexivity.
+Qed.
